@@ -50,7 +50,7 @@ def parseMethodInfo (j : Json) : Except String MethodInfo := do
     | .ok (.bool b) => b
     | _ => false
   pure { name := ← getStr j "name", nparams := ← getNat j "nparams", results := ← natList j "results",
-         ptrRecv := flag "ptrRecv", needsAddr := flag "needsAddr" }
+         ptrRecv := flag "ptrRecv", needsAddr := flag "needsAddr", foreign := flag "foreign" }
 
 def parseLookup (j : Json) : Except String Lookup := do
   match ← getStr j "k" with
@@ -65,7 +65,7 @@ def parseKind (s : String) : Kind :=
 
 def parseTy (j : Json) : Except String TyInfo := do
   let fields ← (← getArr j "fields").toList.mapM fun f => do
-    pure ({ name := ← getStr f "name", ty := ← getNat f "ty" } : Field)
+    pure ({ name := ← getStr f "name", ty := ← getNat f "ty", foreign := ← getBool f "foreign" } : Field)
   let methods ← (← getArr j "methods").toList.mapM parseMethodInfo
   let sl ← match j.getObjVal? "stringLookup" with
     | .ok v => parseLookup v
